@@ -113,6 +113,8 @@ pub struct Scenario {
     pub withhold: Vec<u64>,
     /// paced twin only: the completions to deliver, one per round, in this order (None = the script decides)
     pub forced: Option<Vec<(u64, Outcome)>>,
+    /// > 0: not a scripted scenario but one LONG run of this many evaluations (seeds / ids over a long history)
+    pub long_evals: usize,
 }
 
 const SPECS: &[(&str, &[&str])] = &[
@@ -135,7 +137,7 @@ pub fn gen_scenario(rng: &mut Rng, thorough: bool) -> Scenario {
             target: None, sample_size: 1 + rng.below(3) as usize, spec_yaml: spec.to_string(), guess: None,
             script_seed: rng.next(), term_round: None, fail_permille: 0, rej_permille: *rng.pick(&[0, 50, 200]),
             nonfinite_permille: 0, burst_permille: *rng.pick(&[0, 300]), ignore_abort_permille: *rng.pick(&[0, 1000]),
-            pool: rng.below(8) as u8, max_rounds: rounds, fail_after_term_only: false, withhold: vec![], forced: None,
+            pool: rng.below(8) as u8, max_rounds: rounds, fail_after_term_only: false, withhold: vec![], forced: None, long_evals: 0,
         };
     }
     if rng.chance(1, 14) {
@@ -147,7 +149,7 @@ pub fn gen_scenario(rng: &mut Rng, thorough: bool) -> Scenario {
             nc: 1 + rng.below(3) as usize, max_eval: None, target: Some(*rng.pick(&[-3.0, -2.0, -4.5])), sample_size: ss,
             spec_yaml: spec.to_string(), guess: None, script_seed: rng.next(), term_round: None, fail_permille: 0,
             rej_permille: *rng.pick(&[0, 50]), nonfinite_permille: 0, burst_permille: *rng.pick(&[0, 300]),
-            ignore_abort_permille: 0, pool: 4, max_rounds: if thorough { 1500 } else { 500 }, fail_after_term_only: false, withhold: vec![], forced: None,
+            ignore_abort_permille: 0, pool: 4, max_rounds: if thorough { 1500 } else { 500 }, fail_after_term_only: false, withhold: vec![], forced: None, long_evals: 0,
         };
     }
     if rng.chance(1, 16) {
@@ -158,7 +160,7 @@ pub fn gen_scenario(rng: &mut Rng, thorough: bool) -> Scenario {
             nc: 2 + rng.below(5) as usize, max_eval: None, target: None, sample_size: 1, spec_yaml: spec.to_string(), guess: None,
             script_seed: rng.next(), term_round: Some(3 + rng.below(12) as usize), fail_permille: *rng.pick(&[300, 700]), rej_permille: 100,
             nonfinite_permille: *rng.pick(&[0, 200]), burst_permille: *rng.pick(&[0, 300]), ignore_abort_permille: 1000, pool: rng.below(8) as u8,
-            max_rounds: 80, fail_after_term_only: true, withhold: vec![], forced: None,
+            max_rounds: 80, fail_after_term_only: true, withhold: vec![], forced: None, long_evals: 0,
         };
     }
     let nc = 1 + rng.below(8) as usize;
@@ -189,7 +191,7 @@ pub fn gen_scenario(rng: &mut Rng, thorough: bool) -> Scenario {
         nonfinite_permille: *rng.pick(&[0, 0, 0, 10, 50]),
         burst_permille: *rng.pick(&[0, 200, 600]),
         ignore_abort_permille: *rng.pick(&[0, 0, 500, 1000]),
-        pool, max_rounds, fail_after_term_only: false, withhold: vec![], forced: None,
+        pool, max_rounds, fail_after_term_only: false, withhold: vec![], forced: None, long_evals: 0,
     }
 }
 
@@ -200,7 +202,7 @@ pub fn scenario_json(sc: &Scenario) -> J {
         "guess": sc.guess, "hasGuess": sc.guess.is_some(), "scriptSeed": sc.script_seed, "termRound": sc.term_round,
         "failPermille": sc.fail_permille, "rejPermille": sc.rej_permille, "nonfinitePermille": sc.nonfinite_permille,
         "burstPermille": sc.burst_permille, "ignoreAbortPermille": sc.ignore_abort_permille, "pool": sc.pool,
-        "maxRounds": sc.max_rounds, "failAfterTermOnly": sc.fail_after_term_only,
+        "maxRounds": sc.max_rounds, "failAfterTermOnly": sc.fail_after_term_only, "longEvals": sc.long_evals,
     })
 }
 
@@ -219,7 +221,7 @@ pub fn scenario_from_json(j: &J) -> Scenario {
         burst_permille: u("burstPermille"), ignore_abort_permille: u("ignoreAbortPermille"), pool: u("pool") as u8,
         max_rounds: u("maxRounds") as usize,
         fail_after_term_only: j["failAfterTermOnly"].as_bool().unwrap_or(false),
-        withhold: vec![], forced: None,
+        withhold: vec![], forced: None, long_evals: u("longEvals") as usize,
     }
 }
 
@@ -418,6 +420,7 @@ pub fn run_scenario(sc: &Scenario, sh: Arc<Mutex<Shared>>) -> J {
 /// evaluations simply have not finished yet): the delivered results and their order are the same, so the returned
 /// report must be the same.  The second run's return is attached as `twin`.
 pub fn run_scenario_twin(sc: &Scenario, sh: Arc<Mutex<Shared>>) -> J {
+    if sc.long_evals > 0 { return long_run(sc); }
     let mut line = run_scenario(sc, sh);
     let und: Vec<u64> = line["stats"]["undelivered"].as_array().map(|a| a.iter().filter_map(|x| x.as_u64()).collect()).unwrap_or_default();
     if !und.is_empty() && line["stats"]["returned"] == json!(true) && sc.withhold.is_empty() {
@@ -452,4 +455,50 @@ pub fn run_scenario_twin(sc: &Scenario, sh: Arc<Mutex<Shared>>) -> J {
                                "nStarts": [sa.len(), sb.len()], "returnedB": l3["stats"]["returned"]});
     }
     line
+}
+
+/// C08 over a LONG history: one run of `long_evals` evaluations (every evaluation completes at once with a value that is
+/// a function of its seed, now and then a rejection), recording seed, id and a hash of the parameter set of every
+/// evaluation.  Seeds must be pairwise distinct, all evaluations of an id must see one parameter set, and an id is
+/// evaluated at most sample-size times - also after tens of thousands of evaluations.
+pub fn long_run(sc: &Scenario) -> J {
+    use std::hash::{Hash, Hasher};
+    struct LongObj { log: Arc<Mutex<Vec<(u64, usize, u64)>>>, rej_permille: u64 }
+    #[async_trait]
+    impl AsyncObjectiveFunction for LongObj {
+        async fn evaluate(&self, value: J, _abort: async_broadcast::Receiver<()>, seed: u64, id: usize) -> Result<Option<f64>, Error> {
+            let mut h = std::collections::hash_map::DefaultHasher::new();
+            value.to_string().hash(&mut h);
+            self.log.lock().unwrap().push((seed, id, h.finish()));
+            let mut r = Rng::new(seed ^ 0x5eed);
+            if r.below(1000) < self.rej_permille { return Ok(None); }
+            Ok(Some(r.range(-1000, 1000) as f64 / 16.0))
+        }
+    }
+    let log = Arc::new(Mutex::new(Vec::new()));
+    let (log2, sc2) = (log.clone(), sc.clone());
+    let rt = tokio::runtime::Builder::new_current_thread().enable_all().build().unwrap();
+    let ret = rt.block_on(async move {
+        let spec = spec_util::from_yaml_str(&sc2.spec_yaml).unwrap();
+        let cfg = AlgoConfig { individual_sample_size: sc2.sample_size, num_concurrent: sc2.nc };
+        let (_cmd_tx, cmd_rx) = mpsc::channel::<Command>(1);
+        let (rep_tx, mut rep_rx) = mpsc::channel(1 << 12);
+        let launch = async_launch::launch(spec, LongObj { log: log2, rej_permille: sc2.rej_permille }, cfg, cmd_rx, rep_tx, Some(sc2.long_evals), None, None);
+        tokio::pin!(launch);
+        loop { tokio::select! { r = &mut launch => { break r; } _ = futures::StreamExt::next(&mut rep_rx) => {} } }
+    });
+    let l = log.lock().unwrap();
+    let mut first_of_seed: HashMap<u64, usize> = HashMap::new();
+    let mut dup_seed = J::Null;
+    let mut by_id: HashMap<usize, (u64, usize)> = HashMap::new();
+    let (mut two_values, mut over) = (J::Null, J::Null);
+    for (i, (seed, id, h)) in l.iter().enumerate() {
+        if let Some(j) = first_of_seed.insert(*seed, i) { if dup_seed.is_null() { dup_seed = json!([seed, j, i]); } }
+        let e = by_id.entry(*id).or_insert((*h, 0));
+        if e.0 != *h && two_values.is_null() { two_values = json!(id); }
+        e.1 += 1;
+        if e.1 > sc.sample_size && over.is_null() { over = json!([id, e.1]); }
+    }
+    let ret_j = match &ret { Ok(r) => json!({"ok": {"acc": r.num_obj_func_eval_completed, "rej": r.num_obj_func_eval_rejected}}), Err(e) => json!({"err": e.to_string()}) };
+    json!({"mode": "ctllong", "cfg": scenario_json(sc), "n": l.len(), "dupSeed": dup_seed, "idTwoValues": two_values, "overSampled": over, "ret": ret_j})
 }
